@@ -232,16 +232,16 @@ func c04Gen(tier string, rng *rand.Rand, emit func(interface{})) {
 			emit(c04Case{Op: op, X1: f(1), X2: f(1, 2, 4), Alt: alt})
 			emit(c04Case{Op: op, X1: f(1, 2, 4), X2: f(3), Alt: alt})
 			emit(c04Case{Op: op, X1: f(1), X2: f(2), Alt: alt})
-			emit(c04Case{Op: op, X1: f(3, 3, 3), X2: f(5, 5), Alt: alt})   // both variances zero
-			emit(c04Case{Op: op, X1: f(3, 3, 3), X2: f(5, 6), Alt: alt})   // one variance zero
-			emit(c04Case{Op: op, X1: f(1, 2), X2: f(2, 4), Alt: alt})      // smallest legal
+			emit(c04Case{Op: op, X1: f(3, 3, 3), X2: f(5, 5), Alt: alt})    // both variances zero
+			emit(c04Case{Op: op, X1: f(3, 3, 3), X2: f(5, 6), Alt: alt})    // one variance zero
+			emit(c04Case{Op: op, X1: f(1, 2), X2: f(2, 4), Alt: alt})       // smallest legal
 			emit(c04Case{Op: op, X1: f(1, 2, 3), X2: f(3, 2, 1), Alt: alt}) // T = 0
 		}
 		emit(c04Case{Op: 2, X1: f(1, 2, 3), X2: f(1, 2), Alt: alt})
 		emit(c04Case{Op: 2, X1: f(), X2: f(), Alt: alt})
 		emit(c04Case{Op: 2, X1: f(1), X2: f(2), Alt: alt})
-		emit(c04Case{Op: 2, X1: f(1, 2, 3), X2: f(3, 4, 5), Alt: alt})           // zero-variance differences
-		emit(c04Case{Op: 2, X1: f(1, 2, 3), X2: f(3, 4, 5), Mu0: -2, Alt: alt})  // ... even at mu0 = mean
+		emit(c04Case{Op: 2, X1: f(1, 2, 3), X2: f(3, 4, 5), Alt: alt})          // zero-variance differences
+		emit(c04Case{Op: 2, X1: f(1, 2, 3), X2: f(3, 4, 5), Mu0: -2, Alt: alt}) // ... even at mu0 = mean
 		emit(c04Case{Op: 2, X1: f(1, 2, 4), X2: f(3, 3, 3), Mu0: 0.5, Alt: alt})
 		emit(c04Case{Op: 3, X1: f(), Alt: alt})
 		emit(c04Case{Op: 3, X1: f(7), Mu0: 1, Alt: alt})
